@@ -46,6 +46,8 @@ type scenario struct {
 	Variant int      `json:"variant"`
 	Init    cstate   `json:"init"`
 	Cmds    []string `json:"cmds"`
+	NoXDG   bool     `json:"noxdg"` // XDG_CONFIG_HOME is not set: the directory is $HOME/.config/go/telemetry
+	TZ      string   `json:"tz"`    // TZ of the command's environment ("" = not set)
 }
 
 type env struct {
@@ -76,6 +78,8 @@ func utcDay() int { return int(time.Now().UTC().Unix() / 86400) }
 // content gives the bytes of a file with content identity c.
 func content(name string, c int) []byte {
 	switch {
+	case strings.HasPrefix(name, "empty"):
+		return nil // a zero-length file
 	case strings.HasSuffix(name, ".count"):
 		meta := rt.V1Meta("2024-01-01T00:00:00Z", "2024-01-08T00:00:00Z", "example.com/p", "v1.0.0", "go1.22.1", "linux", "amd64")
 		data, err := rt.WriteV1(meta, []rt.V1Entry{{Name: "c19", Value: uint64(c) + 1}})
@@ -85,7 +89,7 @@ func content(name string, c int) []byte {
 	case strings.Contains(name, "json"):
 		return []byte(fmt.Sprintf("{\n \"Week\": \"2024-01-08\",\n \"X\": 0.25,\n \"Config\": \"c19-%d\"\n}", c))
 	case name == "weekends":
-		return []byte(fmt.Sprintf("%d\n", c%7))
+		return []byte(fmt.Sprintf("%d\n%d\n", c%7, c))
 	}
 	return []byte(fmt.Sprintf("c19 content %d\n", c))
 }
@@ -104,6 +108,8 @@ type world struct {
 	ids   map[string]int // sha256 -> content identity
 	next  int
 	shift int // real day = model day + shift
+	noxdg bool
+	tz    string
 }
 
 func (w *world) materialize(s cstate, variant int) error {
@@ -210,7 +216,13 @@ func sameSnap(a, b map[string]vm.SnapEntry) bool {
 
 func (w *world) run(bin string, args ...string) (stdout, stderr string, rc int) {
 	cmd := exec.Command(bin, args...)
-	cmd.Env = []string{"HOME=" + w.home, "XDG_CONFIG_HOME=" + w.cfg, "PATH=" + os.Getenv("PATH"), "TMPDIR=" + os.Getenv("TMPDIR")}
+	cmd.Env = []string{"HOME=" + w.home, "PATH=" + os.Getenv("PATH"), "TMPDIR=" + os.Getenv("TMPDIR")}
+	if !w.noxdg {
+		cmd.Env = append(cmd.Env, "XDG_CONFIG_HOME="+w.cfg)
+	}
+	if w.tz != "" {
+		cmd.Env = append(cmd.Env, "TZ="+w.tz)
+	}
 	cmd.Dir = w.home
 	var so, se bytes.Buffer
 	cmd.Stdout, cmd.Stderr = &so, &se
@@ -268,7 +280,10 @@ func (w *world) parseEnv(out string) (vm.ReadBack, bool) {
 
 func runScenario(e *env, sc *scenario) {
 	base := filepath.Join(e.root, fmt.Sprintf("s%d", sc.ID))
-	w := &world{cfg: filepath.Join(base, "config"), home: filepath.Join(base, "home"), ids: map[string]int{}}
+	w := &world{cfg: filepath.Join(base, "config"), home: filepath.Join(base, "home"), ids: map[string]int{}, noxdg: sc.NoXDG, tz: sc.TZ}
+	if w.noxdg {
+		w.cfg = filepath.Join(w.home, ".config")
+	}
 	w.dir = filepath.Join(w.cfg, "go", "telemetry")
 	w.shift = utcDay() - sc.Today
 	os.MkdirAll(w.home, 0777)
@@ -282,7 +297,7 @@ func runScenario(e *env, sc *scenario) {
 	pre, preMode := w.observe()
 	for i, c := range sc.Cmds {
 		d0 := utcDay() - w.shift
-		stdout, stderr, rc := w.run(e.bin, c)
+		stdout, stderr, rc := w.run(e.bin, strings.Fields(c)...)
 		d1 := utcDay() - w.shift
 		post, postMode := w.observe()
 		// the observer: `gotelemetry env` after every mode command (and the
@@ -311,7 +326,7 @@ func runScenario(e *env, sc *scenario) {
 			seen = lib
 		}
 		rec := rt.M{"kind": "obs", "src": sc.Src, "id": sc.ID, "step": i, "cmd": c, "s": pre, "t": post,
-			"modeSame": sameSnap(preMode, postMode), "env": seen, "lib": lib, "today0": d0, "today1": d1, "rc": rc,
+			"modeSame": sameSnap(preMode, postMode), "env": seen, "lib": lib, "today0": d0, "today1": d1, "rc": rc, "tz": sc.TZ,
 			"stderr": trunc(stderr), "env_dir_ok": dirOK, "env_rc": envRC, "env_run": envRun,
 			"env_changed": !sameState(post, after) || !sameSnap(postMode, afterMode)}
 		rt.Out(rec)
@@ -319,8 +334,12 @@ func runScenario(e *env, sc *scenario) {
 	}
 	// nothing outside the telemetry directory may be touched (HOME, the config root)
 	now := vm.Snapshot(base)
+	telRel, _ := filepath.Rel(base, w.dir)
+	telRel = filepath.ToSlash(telRel)
+	inside := func(k string) bool { return strings.HasPrefix(filepath.ToSlash(k), telRel) }
+	parent := func(k string) bool { return strings.HasPrefix(telRel, filepath.ToSlash(k)+"/") } // directories made on the way to it
 	for k, v := range foreign {
-		if strings.HasPrefix(filepath.ToSlash(k), "config/go/telemetry") {
+		if inside(k) {
 			continue
 		}
 		if now[k] != v {
@@ -328,7 +347,7 @@ func runScenario(e *env, sc *scenario) {
 		}
 	}
 	for k := range now {
-		if _, ok := foreign[k]; !ok && !strings.HasPrefix(filepath.ToSlash(k), "config/go/telemetry") && !strings.HasPrefix(filepath.ToSlash(k), "config/go") && k != "config" {
+		if _, ok := foreign[k]; !ok && !inside(k) && !parent(k) {
 			rt.Out(rt.M{"kind": "outside", "id": sc.ID, "path": k})
 		}
 	}
@@ -400,7 +419,25 @@ func TestVerifC19(t *testing.T) {
 
 const stemChars = "abcdefghijklmnopqrstuvwxyzABCXYZ0123456789-_@.+ ,=()"
 
+// stems that are not plain ASCII words: accents, CJK, full-width forms, a combining mark, an emoji, line
+// breaks and tabs inside the name, a leading dot, bytes that are not UTF-8, a stem that itself ends in a
+// data-file suffix, a very long stem, and "empty..." (a zero-length file)
+var oddStems = []string{"donn\u00e9es", "\u65e5\u672c\u8a9e", "\uff46\uff55\uff4c\uff4c", "nai\u0308ve", "\U0001F600", "a\nb", "tab\there", ".hidden", "\xff\xfe",
+	"x.json", "y.v1.count", "z.v1.count.json", strings.Repeat("long", 55), "empty", "empty-2024-01-08", "-rf", "--", "*", "?"}
+
+func isASCII(s string) bool {
+	for i := 0; i < len(s); i++ {
+		if s[i] >= 0x80 || s[i] < 0x20 {
+			return false
+		}
+	}
+	return true
+}
+
 func randStem(rng *mrand.Rand) string {
+	if rng.Intn(7) == 0 {
+		return oddStems[rng.Intn(len(oddStems))]
+	}
 	switch rng.Intn(6) {
 	case 0:
 		return fmt.Sprintf("20%02d-%02d-%02d", 19+rng.Intn(18), 1+rng.Intn(12), 1+rng.Intn(28))
@@ -427,14 +464,14 @@ var suffixes = []string{".v1.count", ".json", ".v1.count", ".json", ".v2.count",
 func randName(rng *mrand.Rand) string {
 	for {
 		name := randStem(rng) + suffixes[rng.Intn(len(suffixes))]
-		if rng.Intn(12) == 0 {
+		if rng.Intn(12) == 0 && isASCII(name) {
 			// perturb one character
 			i := rng.Intn(len(name))
 			name = name[:i] + string(stemChars[rng.Intn(len(stemChars)-8)]) + name[i+1:]
 		}
 		name = strings.TrimSpace(name)
 		// names equal to a bare suffix, and the fixed names of the layout, are not generated
-		if name == "" || name == "." || name == ".." || name == ".json" || name == ".v1.count" || name == "mode" || name == "local" || name == "upload" || len(name) > 120 {
+		if name == "" || name == "." || name == ".." || name == ".json" || name == ".v1.count" || name == "mode" || name == "local" || name == "upload" || len(name) > 250 {
 			continue
 		}
 		return name
@@ -447,6 +484,10 @@ func randomScenarios(n, idBase, today int) []scenario {
 	var out []scenario
 	for i := 0; i < n; i++ {
 		sc := scenario{ID: idBase + i, Src: "random", Today: today, Variant: rng.Intn(1000)}
+		sc.NoXDG = rng.Intn(5) == 0
+		if rng.Intn(4) == 0 {
+			sc.TZ = []string{"Pacific/Kiritimati", "Etc/GMT+12", "Asia/Kolkata"}[rng.Intn(3)]
+		}
 		seen := map[string]bool{}
 		c := 0
 		add := func(loc, name, kind string) {
@@ -459,11 +500,18 @@ func randomScenarios(n, idBase, today int) []scenario {
 			e := entry{Loc: loc, Name: name, Kind: kind}
 			if kind == "file" {
 				e.C = c
+				if strings.HasPrefix(name, "empty") {
+					e.C = 9999 // all zero-length files have the same content
+				}
 			}
 			sc.Init.Tree = append(sc.Init.Tree, e)
 		}
 		locs := []string{"local", "local", "local", "upload", "upload", "root"}
-		for k := rng.Intn(14); k > 0; k-- {
+		nent := rng.Intn(14)
+		if rng.Intn(40) == 0 {
+			nent = 150 + rng.Intn(100) // a crowded directory
+		}
+		for k := nent; k > 0; k-- {
 			add(locs[rng.Intn(len(locs))], randName(rng), "file")
 		}
 		if rng.Intn(2) == 0 {
@@ -538,7 +586,19 @@ func randomScenarios(n, idBase, today int) []scenario {
 			}
 		}
 		sc.Init.ModeFile = mf
-		cmds := []string{"clean", "on", "local", "off", "env", "clean"}
+		// local or upload is not a directory but a plain file: nothing can be in it, nothing may happen to it
+		if k := rng.Intn(16); k < 2 {
+			which := []string{"local", "upload"}[k]
+			kept := sc.Init.Tree[:0]
+			for _, e := range sc.Init.Tree {
+				if e.Loc != which && !strings.HasPrefix(e.Loc, which+"/") {
+					kept = append(kept, e)
+				}
+			}
+			sc.Init.Tree = kept
+			add("root", which, "file")
+		}
+		cmds := []string{"clean", "on", "local", "off", "env", "clean", "clean", "clean all", "on now", "off x", "purge"}
 		word := mf.W
 		for k := 1 + rng.Intn(4); k > 0; k-- {
 			c := cmds[rng.Intn(len(cmds))]
